@@ -394,6 +394,35 @@ func c14Directives(r *rep.Run, w *c14worker) {
 			}
 		}
 	}
+	// infix notation: the first token may be a glued `!ident`
+	for _, ib := range []string{"!b0 && (b1 || b2) && 1 + 1 == 2", "! b0 && (b1 || b2) && 1 + 1 == 2", "b0 && !b1 && (1 + 1 == 2 || b2)", "!in(s0, [\"a(b\"]) || b0 && 1 + 1 == 2", "(b0) && 1 + 1 == 2"} {
+		plainI := c14Sig(w, true, ib)
+		if strings.HasPrefix(plainI, "error") || strings.HasPrefix(plainI, "PANIC") {
+			r.Violate("corpus", ib, "infix corpus source does not compile: "+plainI, nil)
+			continue
+		}
+		toks := strings.Fields(ib)
+		for _, dir := range []string{";;;; optimize:false", ";;;;optimize:false", ";;;; constant_folding:false, reordering:false", ";;;;bogus:true", ";;;; optimize:maybe"} {
+			for pos := 1; pos <= len(toks); pos++ {
+				src := strings.Join(toks[:pos], " ") + " " + dir + "\n" + strings.Join(toks[pos:], " ")
+				n++
+				if got := c14Sig(w, true, src); got != plainI {
+					r.Violate("directive-after-first-token", "infix"+dir, "a directive comment after the first token of an infix expression is not ignored", map[string]interface{}{"source": src, "got": got, "want": plainI})
+				}
+				// glued to the previous token (a comment starts at the semicolon)
+				src = strings.Join(toks[:pos], " ") + dir + "\n" + strings.Join(toks[pos:], " ")
+				n++
+				if got := c14Sig(w, true, src); got != plainI {
+					r.Violate("directive-after-first-token", "infix-glued"+dir, "a directive comment glued to a token of an infix expression is not ignored", map[string]interface{}{"source": src, "got": got, "want": plainI})
+				}
+			}
+			// before the first token the valid ones are honoured: must equal the prefix-notation rule (same options)
+		}
+		want := c14Sig(w, true, ";;;; optimize:false\n"+ib)
+		if want == plainI {
+			r.Violate("directive-not-honoured", "infix", "a leading directive has no effect in infix notation", map[string]interface{}{"source": ib})
+		}
+	}
 	r.Cov["directive_layouts"] = n
 	r.Add(int64(n), int64(n), int64(n), int64(n), int64(n))
 	r.Sample(10, map[string]interface{}{"directive_layout": ";plain comment\n;;;; reordering:false\n;another\n" + body})
